@@ -107,6 +107,8 @@ func ruleForwarder() check.Rule {
 					cp.stack = e.Stack
 					if r := cp.classify(e.Pkg, e.CtxArg, e.Node, 0); !r.ok || !strings.Contains(r.why, "slot ctx") {
 						problems = append(problems, fmt.Sprintf("the %s slot forwards a context that is not derived from the one it received (%s)", model.SlotNames[k], r.why))
+					} else if len(prm) > 0 && e.CtxArg != nil && !onlyFrom(m, info, e.CtxArg, prm[0], 0) {
+						problems = append(problems, fmt.Sprintf("the %s slot forwards a context one of whose definitions is not derived from the context it received (%s): per-notification context values are dropped", model.SlotNames[k], r.why))
 					}
 				}
 				// upstream context
@@ -570,4 +572,43 @@ func C19() *check.Property {
 			"zz_verif_controls_c09.go":                       roControl(controlsC09),
 		},
 	}
+}
+
+// onlyFrom: every definition reaching e is the variable root itself or context.With*(...) of something that is.
+func onlyFrom(m *model.Model, info *types.Info, e ast.Expr, root *types.Var, depth int) bool {
+	return onlyFromRec(m, info, e, root, map[*types.Var]bool{}, depth)
+}
+
+func onlyFromRec(m *model.Model, info *types.Info, e ast.Expr, root *types.Var, inflight map[*types.Var]bool, depth int) bool {
+	if depth > 12 {
+		return false
+	}
+	switch x := ast.Unparen(e).(type) {
+	case *ast.Ident:
+		v, ok := objOf(info, x).(*types.Var)
+		if !ok {
+			return false
+		}
+		if inflight[v] {
+			return true // a definition in terms of itself adds no new origin
+		}
+		defs := m.Defs[v]
+		if v != root && len(defs) == 0 {
+			return false
+		}
+		inflight[v] = true
+		defer delete(inflight, v)
+		for _, d := range defs {
+			if d.Expr == nil || !onlyFromRec(m, info, d.Expr, root, inflight, depth+1) {
+				return false
+			}
+		}
+		return true
+	case *ast.CallExpr:
+		cl := model.Callee(info, x)
+		if cl != nil && cl.Pkg() != nil && cl.Pkg().Path() == "context" && strings.HasPrefix(cl.Name(), "With") && len(x.Args) > 0 {
+			return onlyFromRec(m, info, x.Args[0], root, inflight, depth+1)
+		}
+	}
+	return false
 }
